@@ -107,13 +107,9 @@ func (a CommandBasedAuthorizer) evaluate() bool {
 			if len(regexish) == 0 {
 				continue
 			}
-			// guard against regexes that are not anchored to the start and end of the string
-			if regexish[0] != regexStartByte {
-				regexish = regexStartStr + regexish
-			}
-			if regexish[len(regexish)-1] != regexEndByte {
-				regexish = regexish + regexEndStr
-			}
+			// anchor the whole expression to the start and end of the string; the group keeps
+			// the anchors outside of any alternation the expression may contain
+			regexish = regexStartStr + "(?:" + regexish + ")" + regexEndStr
 			if matched, err := regexp.MatchString(regexish, a.body.Args.CommandArgsNoLE()); err != nil {
 				a.Errorf(a.ctx, "bad regex detected; %v", err)
 				return false
